@@ -208,6 +208,8 @@ func c10ServerNegotiate(r *Run, sn *ssa.Function) {
 	r.Floor("tversion-first", nNil, 1, "nil return of servernegotiate")
 
 	c10SetMSizeLowering(r, sn)
+	c10SetMSizeOnlyInNegotiation(r)
+	c10DispatcherReadFits(r)
 
 	// (4) Rversion.MSize per path
 	var resp *ssa.Alloc
@@ -436,6 +438,52 @@ func c10SetMSizeLowering(r *Run, fn *ssa.Function) {
 		// x >= 0 (SetMSize slices the read buffer)
 		r.Check(Entails(facts, x.Scale(-1)), "setmsize-precondition", fnName(fn)+": SetMSize argument is non-negative", sc.Pos(), "SetMSize may be called with a negative size", "x = "+x.String())
 	}
+}
+
+// c10SetMSizeOnlyInNegotiation: the msize of a channel changes only while the version is negotiated: every call of
+// Channel.SetMSize sits in clientnegotiate, servernegotiate or a helper only they call. A later adjustment (a "floor"
+// or a "ceiling" applied by the serve loop) makes this end work with an msize other than the one it answered.
+func c10SetMSizeOnlyInNegotiation(r *Run) {
+	p := r.P
+	allowed := map[*ssa.Function]bool{}
+	for _, name := range []string{"p9p:clientnegotiate", "p9p:servernegotiate"} {
+		if fn := p.Fn(name); fn != nil {
+			for _, f := range p.withHelpers(fn, 2) {
+				if f == fn {
+					allowed[f] = true
+					continue
+				}
+				// a helper counts only if nothing but the negotiation functions (and their helpers) calls it
+				if sites, exact := p.staticCallSites(f); exact && len(sites) > 0 {
+					allowed[f] = true
+				}
+			}
+		}
+	}
+	for changed := true; changed; {
+		changed = false
+		for f := range allowed {
+			if f.Name() == "clientnegotiate" || f.Name() == "servernegotiate" {
+				continue
+			}
+			sites, _ := p.staticCallSites(f)
+			for _, c := range sites {
+				if !allowed[c.Parent()] {
+					delete(allowed, f)
+					changed = true
+				}
+			}
+		}
+	}
+	n := 0
+	for _, fn := range p.FuncsOfPkg("p9p") {
+		for _, c := range findCalls(fn, "invoke p9p.Channel.SetMSize", "(*p9p.channel).SetMSize") {
+			n++
+			r.Check(allowed[fn], "msize-only-lowered", fnName(fn)+": SetMSize is called only while the version is negotiated", c.Pos(),
+				"the channel's msize is changed outside the version negotiation: this end then works with an msize other than the one it proposed/answered")
+		}
+	}
+	r.Floor("msize-only-lowered", n, 1, "SetMSize call sites")
 }
 
 func c10ClientNegotiate(r *Run, cn *ssa.Function) {
@@ -772,4 +820,111 @@ func loweringHelper(p *Prog, g *ssa.Function) (int, bool) {
 		}
 	}
 	return 0, false
+}
+
+// c10DispatcherReadFits: the dispatcher sizes the buffer of a Tread so that the Rread carrying it fits the session's
+// msize: on every path to the allocation, len <= msize - 11 (size[4] type[1] tag[2] count[4]) or len <= 0.
+func c10DispatcherReadFits(r *Run) {
+	p := r.P
+	h := p.Fn("p9p:(sessionHandler).Handle")
+	if h == nil {
+		r.Undecided("tread-reply-fits", "(sessionHandler).Handle", token.NoPos, "anchor not found")
+		return
+	}
+	n := 0
+	for _, f := range p.withHelpers(h, 1) {
+		fa := p.FA(f)
+		eachInstr(f, func(in ssa.Instruction) {
+			ms, ok := in.(*ssa.MakeSlice)
+			if !ok {
+				return
+			}
+			if sl, isSl := ms.Type().Underlying().(*types.Slice); !isSl || shortType(sl.Elem()) != "byte" && shortType(sl.Elem()) != "uint8" {
+				return
+			}
+			n++
+			l := fa.Lin(ms.Len)
+			facts := fa.FactsAt(ms, l)
+			ok2 := false
+			// the msize this handler serves under: the value of sessionHandler.msize
+			var M *Lin
+			eachInstr(f, func(in2 ssa.Instruction) {
+				var v ssa.Value
+				switch x := in2.(type) {
+				case *ssa.Field:
+					if fieldNameV(x.X.Type(), x.Field) == "msize" && strings.HasSuffix(shortType(x.X.Type()), "sessionHandler") {
+						v = x
+					}
+				case *ssa.UnOp:
+					if fad, isF := x.X.(*ssa.FieldAddr); isF && x.Op == token.MUL && fieldName(fad.X.Type(), fad.Field) == "msize" && strings.HasSuffix(strings.TrimPrefix(shortType(fad.X.Type()), "*"), "sessionHandler") {
+						v = x
+					}
+				}
+				if v != nil && M == nil {
+					M = fa.Lin(v)
+				}
+			})
+			if M != nil {
+				bound := M.Sub(linConst(11))
+				// every value the length can have, with the facts of the edge it comes in on
+				type alt struct {
+					v          ssa.Value
+					pred, succ *ssa.BasicBlock
+				}
+				var alts []alt
+				var expand func(v ssa.Value, pred, succ *ssa.BasicBlock, d int)
+				expand = func(v ssa.Value, pred, succ *ssa.BasicBlock, d int) {
+					if ph, isPhi := v.(*ssa.Phi); isPhi && d < 3 && !hasBackEdge(ph.Block()) {
+						for i, e := range ph.Edges {
+							expand(e, ph.Block().Preds[i], ph.Block(), d+1)
+						}
+						return
+					}
+					alts = append(alts, alt{v, pred, succ})
+				}
+				expand(ms.Len, nil, nil, 0)
+				ok2 = len(alts) > 0
+				for _, a := range alts {
+					al := fa.Lin(a.v)
+					var ef []Fact
+					if a.pred == nil {
+						ef = fa.FactsAt(ms, al, bound)
+					} else {
+						ef = fa.FactsOnEdge(a.pred, a.succ, al, bound)
+					}
+					if !(EntailsLE(ef, al, bound) || EntailsLE(ef, al, linConst(0))) {
+						ok2 = false
+					}
+				}
+			}
+			if !ok2 {
+				// the clamp may be made by a helper whose result is bounded by its msize argument minus 11
+				if c, isCall := ms.Len.(*ssa.Call); isCall {
+					if g := staticCallee(&c.Call); g != nil && g.Blocks != nil && p.InModule(g) {
+						gfa := p.FA(g)
+						for _, prm := range g.Params {
+							if !strings.Contains(strings.ToLower(prm.Name()), "msize") {
+								continue
+							}
+							all, nr := true, 0
+							for _, rs := range returnSites(g) {
+								nr++
+								rl := gfa.Lin(rs.Results[0])
+								gf := gfa.FactsAtSite(rs, rl)
+								if !(EntailsLE(gf, rl, gfa.Lin(prm).Sub(linConst(11))) || EntailsLE(gf, rl, linConst(0))) {
+									all = false
+								}
+							}
+							if all && nr > 0 {
+								ok2 = true
+							}
+						}
+					}
+				}
+			}
+			r.Check(ok2, "tread-reply-fits", fnName(f)+": the Tread buffer is at most msize-11 bytes (or empty)", ms.Pos(),
+				"the dispatcher can allocate (and the session fill) more than msize-11 bytes for a Tread: the Rread frame then exceeds the session's msize", factStrings(facts)...)
+		})
+	}
+	r.Floor("tread-reply-fits", n, 1, "Tread buffer allocation in the dispatcher")
 }
